@@ -32,7 +32,8 @@ META = {
     "level": "proof",
     "trusted_base": ["clang AST + vc/cppsym", "z3 / cvc5 / ratfun"],
     "assumptions": ["lemmas L-sum, L-lin, L-pairing (finite-sum algebra) are proved in Lean 4 + Mathlib (lemmas/Sums.lean, re-checked on "
-                    "every run); L-mates (induction over the edge list from the SetNeighbors iteration contract) is stated",
+                    "every run), and so is L-mates (lemmas/Mates.lean: steps that append two fresh slots pointing at each other build a "
+                    "fixed-point-free involution)",
                     "pairing of directed interfaces is checked on bounded instances only (grid shapes <= 4x4x3 x 8 boundary "
                     "combinations, 6 multigraphs with self loops and parallel edges)",
                     "A1: doubles are reals (the deterministic engine conserves to rounding, the stochastic ones exactly because "
@@ -480,7 +481,7 @@ def set_neighbors_iteration_case():
     """graph: one iteration of SetNeighbors (edge e between a and b) appends exactly one slot to row a (neighbour b) and one to
     row b (neighbour a) of the three ragged tables, with the edge's surface and distance in both, bumps both counts, and leaves
     every older slot and every other row unchanged: the two new slots are each other's mates (a self loop gets two slots in
-    the same row).  By induction over the edge list every slot has exactly one mate (lemma L-mates, stated)."""
+    the same row).  By induction over the edge list every slot has exactly one mate (lemma L-mates, lemmas/Mates.lean)."""
     P = "C02/pairing/graph/SetNeighbors-iteration"
 
     def run(api):
@@ -590,7 +591,7 @@ def link_replay(oid, extra):
 
 
 from vc.core.leanstep import lean_step as _lean_step
-EXTRA = [battery_step, _lean_step("Sums.lean", "C02", ["L_sum", "L_lin", "L_pairing"])]
+EXTRA = [battery_step, _lean_step("Sums.lean", "C02", ["L_sum", "L_lin", "L_pairing"]), _lean_step("Mates.lean", "C02", ["L_mates"])]
 CASES = []
 if z3 is not None:
     for _c in ("Gillespie3D", "GillespieGraph"):
